@@ -10,6 +10,7 @@ ATTS = [fmtlib.PLAIN, fmtlib.RED, fmtlib.BOLD_ON_BLUE]
 
 class C16(PureCheck):
     pid = "C16"
+    subst_every = 6
     warm_every = 3
     rule = ("str and FmtStr inputs: layouts of <=2 runs of length 0..3 (quick, + sampled 3-run layouts with runs up to "
             "length 4) / all <=2 runs of length 0..3 + 60k sampled 3-run layouts + 40k sampled layouts with runs up to length 4 (thorough) over "
